@@ -225,8 +225,18 @@ def rule_3(ctx):
     ctx.floor(1, 're-wrapping handlers on the recursion')
 
 
+def rule_4(ctx):
+    """The addresses the cycle guard compares are the addresses of the cells really being evaluated: a reference node
+    resolves its address against the context of the current evaluation (shared with C03.3)."""
+    from . import corelemma
+    corelemma.rule_address_per_evaluation(ctx)
+    corelemma.rule_node_state(ctx, only=('RangeNode',))
+    ctx.floor(2, 'address resolution facts')
+
+
 RULES = [
     ('C06.1', 'the cycle guard sees its ancestors (identity flow along the recursion)', rule_1),
     ('C06.2', 'stack discipline: insertions paired with removals on every exit', rule_2),
     ('C06.3', 'exception re-wrapping is additive (no repr of the caught exception)', rule_3),
+    ('C06.4', 'guarded addresses are resolved per evaluation (shared with C03.3)', rule_4),
 ]
